@@ -483,7 +483,15 @@ impl Expression {
                 PathAnalysisState::NotInPath
             }
             Expression::LitFloat { value: x, .. } => {
-                write!(value, "{}", x)?;
+                if x.is_finite() {
+                    write!(value, "{}", x)?;
+                } else if x.is_nan() {
+                    write!(value, "NaN")?;
+                } else if *x > 0. {
+                    write!(value, "Infinity")?;
+                } else {
+                    write!(value, "(-Infinity)")?;
+                }
                 PathAnalysisState::NotInPath
             }
             Expression::LitBool { value: x, .. } => {
